@@ -144,43 +144,66 @@ impl IsZeroBig for BigUint {
     }
 }
 
-/// find the smallest sub-expression on which the real evaluator is already wrong
-fn minimize(ctx: &Context, env: &HashMap<ExprRef, Val>, model: &miter::Model, e: ExprRef) -> ExprRef {
-    let mut cur = e;
-    'outer: loop {
-        for k in decompose(&ctx[cur]).kids {
-            let want = bigeval::eval(ctx, env, k);
-            let got = crate::panics::guarded(|| real_eval_val(ctx, model, k));
-            match (want, got) {
-                (Ok(want), Ok(Some(got))) => {
-                    let canonical = match &want {
-                        Val::BV(x, w) => crate::panics::guarded(|| {
-                            let mut st = SymbolValueStore::default();
-                            for (s, _, v) in model {
-                                match miter::to_baa(v) {
-                                    baa::Value::BitVec(b) => st.define_bv(*s, &b),
-                                    baa::Value::Array(a) => st.define_array(*s, a),
-                                }
-                            }
-                            eval_bv_expr(ctx, &st, k).is_equal(&miter::baa_bv(x, *w))
-                        })
-                        .unwrap_or(true),
-                        _ => true,
-                    };
-                    if !bigeval::vals_equal(&want, &got) || !canonical {
-                        cur = k;
-                        continue 'outer;
-                    }
-                }
-                (Ok(_), Err(_)) => {
-                    cur = k;
-                    continue 'outer;
-                }
-                _ => {}
-            }
-        }
-        return cur;
+fn post_order(ctx: &Context, e: ExprRef, seen: &mut std::collections::HashSet<ExprRef>, out: &mut Vec<ExprRef>) {
+    if !seen.insert(e) {
+        return;
     }
+    for k in decompose(&ctx[e]).kids {
+        post_order(ctx, k, seen, out);
+    }
+    out.push(e);
+}
+
+/// find the smallest sub-expression on which the real evaluator is already wrong: the first node in
+/// post-order (so all of its descendants are right) whose value differs, is not canonical, or panics.
+/// Arrays holding dirty words are not visible as a wrong *array* value, hence all descendants are
+/// inspected, not only the chain of wrong children.
+fn minimize(ctx: &Context, env: &HashMap<ExprRef, Val>, model: &miter::Model, e: ExprRef) -> ExprRef {
+    minimize_excluding(ctx, env, model, e, None)
+}
+
+/// `exclude`: a node whose sub-tree is not evaluated (its value is supplied by the store)
+fn minimize_excluding(ctx: &Context, env: &HashMap<ExprRef, Val>, model: &miter::Model, e: ExprRef, exclude: Option<ExprRef>) -> ExprRef {
+    let mut order = vec![];
+    post_order(ctx, e, &mut Default::default(), &mut order);
+    let mut skip = vec![];
+    if let Some(x) = exclude {
+        post_order(ctx, x, &mut Default::default(), &mut skip);
+    }
+    for k in order {
+        if k == e {
+            break;
+        }
+        if skip.contains(&k) {
+            continue;
+        }
+        let want = bigeval::eval(ctx, env, k);
+        let got = crate::panics::guarded(|| real_eval_val(ctx, model, k));
+        match (want, got) {
+            (Ok(want), Ok(Some(got))) => {
+                let canonical = match &want {
+                    Val::BV(x, w) => crate::panics::guarded(|| {
+                        let mut st = SymbolValueStore::default();
+                        for (s, _, v) in model {
+                            match miter::to_baa(v) {
+                                baa::Value::BitVec(b) => st.define_bv(*s, &b),
+                                baa::Value::Array(a) => st.define_array(*s, a),
+                            }
+                        }
+                        eval_bv_expr(ctx, &st, k).is_equal(&miter::baa_bv(x, *w))
+                    })
+                    .unwrap_or(true),
+                    _ => true,
+                };
+                if !bigeval::vals_equal(&want, &got) || !canonical {
+                    return k;
+                }
+            }
+            (Ok(_), Err(_)) => return k,
+            _ => {}
+        }
+    }
+    e
 }
 
 fn real_eval_val(ctx: &Context, model: &miter::Model, e: ExprRef) -> Option<Val> {
@@ -311,7 +334,28 @@ fn validation_part(rep: &mut Report, tier: Tier, seed: u64) {
                             Ok(got) => {
                                 if !bigeval::vals_equal(&got, &want) {
                                     point_wrong = true;
-                                    let m = if supplied.is_none() { minimize(&ctx, &env, &model, e) } else { e };
+                                    // a short-circuit point may fail for a reason that has nothing to do with the
+                                    // supplied value: judge the plain evaluation first
+                                    let plain_env = miter::model_env(&model);
+                                    let plain_wrong = supplied.is_some()
+                                        && match (bigeval::eval(&ctx, &plain_env, e), crate::panics::guarded(|| real_eval_val(&ctx, &model, e))) {
+                                            (Ok(w), Ok(Some(g))) => !bigeval::vals_equal(&w, &g),
+                                            (Ok(_), Err(_)) => true,
+                                            _ => false,
+                                        };
+                                    // ... or because an operand outside the supplied sub-tree is already wrong / non-canonical
+                                    let other_operand = match &supplied {
+                                        Some((k, _)) if !plain_wrong => Some(minimize_excluding(&ctx, &plain_env, &model, e, Some(*k))).filter(|m| *m != e),
+                                        _ => None,
+                                    };
+                                    let plain_finding = plain_wrong || other_operand.is_some();
+                                    let supplied = if plain_finding { None } else { supplied.clone() };
+                                    let env = if plain_finding { plain_env } else { env.clone() };
+                                    let m = match other_operand {
+                                        Some(m) => m,
+                                        None if supplied.is_none() => minimize(&ctx, &env, &model, e),
+                                        None => e,
+                                    };
                                     let (op, class) = classify(&ctx, m, &env);
                                     // is the value at the minimised node right but non-canonical (wrong only downstream)?
                                     let m_value_ok = m != e
@@ -356,28 +400,31 @@ fn validation_part(rep: &mut Report, tier: Tier, seed: u64) {
                                     let model2: miter::Model = model.clone();
                                     let env2 = miter::model_env(&model2);
                                     // smallest sub-expression whose value is already non-canonical
+                                    // (post-order over all descendants: arrays can carry dirty words unseen)
+                                    let mut order = vec![];
+                                    post_order(&ctx, e, &mut Default::default(), &mut order);
                                     let mut cur = e;
-                                    'outer: loop {
-                                        for k in decompose(&ctx[cur]).kids {
-                                            if let (Ok(Val::BV(kx, kw)), Ok(Ty::BV(_))) = (bigeval::eval(&ctx, &env2, k), RefEnc::type_of(&ctx, k)) {
-                                                let bad = crate::panics::guarded(|| {
-                                                    let mut st = SymbolValueStore::default();
-                                                    for (s, _, v) in model2.iter() {
-                                                        match miter::to_baa(v) {
-                                                            baa::Value::BitVec(b) => st.define_bv(*s, &b),
-                                                            baa::Value::Array(a) => st.define_array(*s, a),
-                                                        }
+                                    for k in order {
+                                        if k == e {
+                                            break;
+                                        }
+                                        if let (Ok(Val::BV(kx, kw)), Ok(Ty::BV(_))) = (bigeval::eval(&ctx, &env2, k), RefEnc::type_of(&ctx, k)) {
+                                            let bad = crate::panics::guarded(|| {
+                                                let mut st = SymbolValueStore::default();
+                                                for (s, _, v) in model2.iter() {
+                                                    match miter::to_baa(v) {
+                                                        baa::Value::BitVec(b) => st.define_bv(*s, &b),
+                                                        baa::Value::Array(a) => st.define_array(*s, a),
                                                     }
-                                                    !eval_bv_expr(&ctx, &st, k).is_equal(&miter::baa_bv(&kx, kw))
-                                                })
-                                                .unwrap_or(false);
-                                                if bad {
-                                                    cur = k;
-                                                    continue 'outer;
                                                 }
+                                                !eval_bv_expr(&ctx, &st, k).is_equal(&miter::baa_bv(&kx, kw))
+                                            })
+                                            .unwrap_or(false);
+                                            if bad {
+                                                cur = k;
+                                                break;
                                             }
                                         }
-                                        break;
                                     }
                                     let (op, class) = classify(&ctx, cur, &env2);
                                     r.violation(
